@@ -8,11 +8,13 @@ ID = "C12"
 PROP_FILES = ["Props/C12.v"]
 RUN_FILES = ["Run/C12Run.v", "Run/PolyRun.v"]
 RULE = ("generated: programs of 1-3 linked files (bytes-only statements of sizes 1-6, 2-6 labels anywhere, exported across files) with "
-        "(a) a link expression K + sum k_i*(L_i-L_j) in 12 spellings (k*(a-b), (a-b)*k, k*a-k*b, a*k-b*k, unary minus, via a symbol holding the "
-        "difference, via symbols holding the addresses, chains of symbols, / % & | ^ _ ~ << >> of differences, a<<n - b<<n, whole expression via a "
-        "symbol), the .link (or a leading '. =') anywhere in any file, symbols defined before or after use; expected base = integer value on label "
-        "offsets known by construction, judged in Coq by Spec/LinkRef.zeval at three bases; (b) genuinely self-dependent expressions (a, a+K, 2*a, "
-        "a/2, a&7, a>>1, a*b, -a, ~a, (a-b)*c, via symbols) expected 'recursive-definition'; (c) a second .link / .link after a leading '. ='; "
+        "(a) a link expression K + sum k_i*(L_i-L_j) in 20 spellings (k*(a-b), (a-b)*k, k*a-k*b, a*k-b*k, unary minus, via a symbol holding the "
+        "difference, via symbols holding the addresses, chains of symbols holding addresses or differences, factors that are symbols or chains of "
+        "symbols on either side of an address, / % & | ^ _ ~ << >> of differences, a<<n - b<<n, whole expression via a symbol), the .link (or a "
+        "leading '. =') anywhere in any file, every symbol defined anywhere (before or after use, in any order, exported across files); every such "
+        "solvable expression must be accepted with base = integer value on label offsets known by construction, judged in Coq by "
+        "Spec/LinkRef.zeval at three bases; (b) genuinely self-dependent expressions (a, a+K, 2*a, "
+        "a/2, a&7, a>>1, a*b, -a, ~a, (a-b)*c, via symbols, chains and symbol factors) expected 'recursive-definition'; (c) a second .link / .link after a leading '. ='; "
         "(d) '.link b ; code ; . = X ; code' with X - '.' = every size 0..64 forward and 1..8, 100 backward, b literal or a forward-referencing "
         "expression, X literal, '. + n' or 'label + n'; (e) no directive at all; (f) gaps between / after the labels of a difference, two gaps "
         "(correspondence only). Boundaries: values 0, +-1, 65535, 65536, -65535, -65536 of the link expression. Also 100s of random operation "
@@ -24,7 +26,10 @@ LEVEL_TEXT = ("Coq theorems (unbounded Z, programs of any length) about an execu
               "that such rejection is never spurious, second .link rejected, '. =' forward = exact zero fill and next address X, backward = error. "
               "Models are hand-written (no generated tables) and tied to the code on every run by correspondence: operation sequences on the real "
               "LinearPolynomial/Promise objects, and end-to-end assembly of generated programs compared with the model evaluated in coqc.")
-LEVEL_NOTE = ("Intermediate symbols are transparent in the model (inlined by the harness); evaluation order (Deferred/try_compute/Awaiting) is "
+LEVEL_NOTE = ("Intermediate symbols are transparent in the model (inlined by the harness) and the check expects exactly that of the code for every "
+              "placement; the mechanism that makes it true (LinearPolynomial._substitute_known_variables) is modelled in Model/Poly.substitute, proved "
+              "value-preserving and complete, and tied by driven operation sequences (chains of deferred values, nested polynomials containing the base "
+              "promise, variables being computed, values only computable at depth 0). Evaluation order (Deferred/try_compute/Awaiting) is otherwise "
               "abstracted to 'a value that still contains a variable while the base is being computed is a cycle'. The integer meaning of the "
               "awaited operators is Spec/LinkRef.awz (C05's subject), taken as given here. Print Assumptions: closed for every theorem.")
 TECHNIQUE = "Coq proof about hand-written executable models + model/implementation correspondence (internal API and end to end) + Spec oracle judged in Coq"
